@@ -316,7 +316,11 @@ impl IpSender {
     /// addresses.
     #[inline]
     fn canonical_addr(addr: SocketAddr) -> SocketAddr {
-        SocketAddr::new(addr.ip().to_canonical(), addr.port())
+        match addr.ip().to_canonical() {
+            ip @ IpAddr::V4(_) => SocketAddr::new(ip, addr.port()),
+            // Keep the address as is, it may carry a scope id.
+            IpAddr::V6(_) => addr,
+        }
     }
 
     pub(super) fn poll_send(
